@@ -128,6 +128,8 @@ class N(tuple):
         return self[0]
 
 
+TYPE_SIZE = {"u8": 1, "i8": 1, "u16": 2, "i16": 2, "u32": 4, "i32": 4, "f32": 4, "u64": 8, "i64": 8, "f64": 8, "usize": 8, "isize": 8,
+             "u128": 16, "i128": 16}
 BINPREC = {"||": 1, "&&": 2, "==": 3, "!=": 3, "<": 3, ">": 3, "<=": 3, ">=": 3, "|": 4, "^": 5, "&": 6, "<<": 7, ">>": 7,
            "+": 8, "-": 8, "*": 9, "/": 9, "%": 9}
 ASSIGN = {"=", "+=", "-=", "*=", "/=", "%=", "^=", "&=", "|=", "<<=", ">>="}
@@ -548,14 +550,14 @@ class Parser:
             return self.mk("loop", start, w, hdr, body)
         # path
         segs = [w]
+        generics = None
         while self.at("::"):
             self.next()
             if self.at("<"):
-                self.skip_balanced()
+                a, b = self.skip_balanced()
+                generics = self.src[a:b].strip()
             else:
                 segs.append(self.next().text)
-        if self.at("<") and w in ("Vec", "Option", "Box") and self.peek(1).kind == "id":
-            pass
         if self.at("!") and not self.at("=", 1) and self.peek(1).text in ("(", "[", "{"):
             self.next()
             inner = self.skip_balanced()
@@ -578,7 +580,9 @@ class Parser:
                     self.next()
             self.expect("}")
             return self.mk("struct", start, segs, fields)
-        return self.mk("path", start, segs)
+        node = self.mk("path", start, segs)
+        node.generics = generics
+        return node
 
     def struct_ahead(self):
         """after `Path {`: is this a struct literal (`ident:` / `ident,` / `ident }` / `}` / `..`)?"""
@@ -1103,8 +1107,15 @@ class Evaluator:
         if k == "index":
             v = self.ev(e[1], env, p, scopes)
             i = self.ev(e[2], env, p, scopes)
-            if isinstance(v, tuple) and v and v[0] == "Bytes" and isinstance(i, int):
-                return v[1][i]
+            if isinstance(v, tuple) and v and v[0] == "Bytes" and isinstance(i, int) and not isinstance(i, bool):
+                if 0 <= i < len(v[1]):
+                    return v[1][i]
+                raise Leave("panic", "index out of bounds")
+            if isinstance(v, tuple) and v and v[0] == "Bytes" and isinstance(i, tuple) and i and i[0] == "Range":
+                lo = 0 if i[1] is None else i[1]
+                hi = len(v[1]) if i[2] is None else (i[2] + 1 if i[3] else i[2])
+                if isinstance(lo, int) and isinstance(hi, int):
+                    return ("Bytes", tuple(v[1][lo:hi]))
             return Opaque(p.text(e))
         if k == "struct":
             return Opaque(p.text(e))
@@ -1280,6 +1291,14 @@ class Evaluator:
                 r = self.call_fn(name, vals, scopes, p.text(e))
                 if r is not None:
                     return r
+            if name == "size_of" and not vals and getattr(fn, "generics", None) in TYPE_SIZE:
+                return TYPE_SIZE[fn.generics]
+            if name in ("from_be_bytes", "from_le_bytes") and len(vals) == 1 and isinstance(vals[0], tuple) and vals[0] and vals[0][0] == "Bytes":
+                bs = list(vals[0][1]) if name == "from_be_bytes" else list(reversed(vals[0][1]))
+                r = 0
+                for x in bs:
+                    r = (r << 8) | x
+                return r
             if name == "min" and len(vals) == 2 and all(isinstance(v, int) for v in vals):
                 return min(vals)
             if name == "max" and len(vals) == 2 and all(isinstance(v, int) for v in vals):
@@ -1342,6 +1361,12 @@ class Evaluator:
                 return max(r, 0) if name.startswith("saturating") else r
             if name in ("min", "max") and len(args) == 1 and isinstance(args[0], int):
                 return min(recv, args[0]) if name == "min" else max(recv, args[0])
+            if name == "div_ceil" and len(args) == 1 and isinstance(args[0], int) and args[0] > 0:
+                return -(-recv // args[0])
+            if name == "pow" and len(args) == 1 and isinstance(args[0], int):
+                return recv ** args[0]
+            if name in ("wrapping_mul", "saturating_mul") and len(args) == 1 and isinstance(args[0], int):
+                return recv * args[0]
             if name in ("into", "clone", "to_owned"):
                 return recv
             if name == "eq_ignore_ascii_case":
